@@ -8,10 +8,30 @@ MANIFEST = dict(
     design='DESIGN.md §4 C15',
     technique='TLA+ specification of string framing (StrFrame.tla: terminator, block padding, length prefix, fixed buffers, accelerating XOR mask, furigana carry-over) model-checked by TLC; TLC-generated framing cases replayed into the real Lowerer/Raiser; blobs the real compiler wrote for a Shift-JIS repertoire sweep judged by TLC (Obs_StrFrame); text round trip through the real CLI for MSG/STD/ANM',
     text='In-model: a state machine over sequences of <= 3 consecutive strings (carried furigana block) and one TLC state per (string encoding, text) for 65 encodings (bs 1/4/16, len 1/8, nulless, five masks incl. ones that mask a byte to zero, furibug) x all lengths 0..2bs+1 x four byte patterns and all short texts: every block reads back as its text, sizes are the least multiple of bs, error iff the text (+NUL) exceeds the buffer, the carried block is exactly the last furigana line and is used once; the transcription is pinned to the bundled TH11/TH12/TH17 MSG samples. Binding: every generated case is compiled by the real Lowerer (blob equality with the specification) and decompiled by the real Raiser (from the real and from the specified bytes). Repertoire sweep: texts over every character on which Python\'s shift_jis and cp932 codecs agree (7031 characters; ASCII, half/full-width kana, kanji incl. trail bytes 0x5C 0x7C 0x7E 0x80 0x81 and mask bytes), lengths 0..300, all string encodings; contract Decompile(Compile(t)) = t or an error with a diagnostic, and the written blobs are judged by TLC against StrFrame (so truth must produce the same Shift-JIS bytes and the same framing). Real CLI: trumsg for TH06/08/10/11/12/18, trustd names, truanm paths.',
-    note='Trusted: TLC, CommunityModules Json, Python\'s shift_jis/cp932 codecs as the table of unambiguous characters, the harness renderer and string-literal (un)escaping. Characters outside that table are only checked against the contract "identical or rejected". The width of the `p` length prefix (4 bytes LE) is not documented and was taken as a dword.',
+    note='Trusted: TLC, CommunityModules Json, Python\'s shift_jis/cp932 codecs as the table of unambiguous characters, the harness renderer and string-literal (un)escaping. Characters outside that table (the whole rest of the Basic Multilingual Plane is swept) are only checked against the contract "identical or rejected". The width of the `p` length prefix (4 bytes LE) is not documented and was taken as a dword.',
 )
 
-GC = {"_JAVA_OPTIONS": "-XX:ParallelGCThreads=2"}
+# JVM options for the (many, short) TLC runs: few GC threads and C1-only compilation — the runs are short and the
+# machine is shared, C2 compiler threads cost more than they give (measured: 43 s -> 22 s for one Obs shard)
+GC = {"_JAVA_OPTIONS": "-XX:ParallelGCThreads=2 -XX:TieredStopAtLevel=1 -Xmx3g"}
+
+
+class Rec:
+    """buffers counters and reports of one part of the check (the parts run concurrently; the buffers are
+    applied to the Check in a fixed order so that the outcome does not depend on scheduling)"""
+
+    def __init__(self):
+        self.ops = []
+
+    def add(self, key, n=1):
+        self.ops.append(("add", key, n))
+
+    def report(self, key, what, replay):
+        self.ops.append(("report", key, what, replay))
+
+    def apply(self, chk):
+        for op in self.ops:
+            getattr(chk, op[0])(*op[1:])
 
 
 # ------------------------------------------------------------------ repertoire
@@ -79,11 +99,12 @@ def sweep_cases(chk, rep, thorough):
     rng = chk.rng
     pool = chars[:]
     rng.shuffle(pool)
-    for n in range(0, 301):                             # S2: every length 0..300
+    lengths = range(0, 301) if thorough else [n for n in range(0, 301) if n <= 130 or n % 4 == 0 or n in (255, 257, 299)]
+    for n in lengths:                                   # S2: lengths 0..300 (quick: all up to 130, then every 4th)
         text = "".join(pool[(n * 7 + j * 13) % len(pool)] for j in range(n))
         if text.startswith("|"):
             text = "A" + text[1:]
-        for e in (UNBOUNDED[n % len(UNBOUNDED)], UNBOUNDED[(n + 3) % len(UNBOUNDED)]):
+        for e in (UNBOUNDED[n % len(UNBOUNDED)], UNBOUNDED[(n + 3) % len(UNBOUNDED)])[:2 if thorough else 1]:
             add(one(e, text), "length")
     for j in range(2000 if thorough else 400):          # S3: random texts, every encoding (fixed ones may overflow)
         text = "".join(rng.choice(chars) for _ in range(rng.randrange(1, 41)))
@@ -172,7 +193,7 @@ def judge_contract(chk, case, cls, o, in_table):
         chk.report("decode-fails:sweep:%s" % cls, "the real Raiser fails on what the real Lowerer wrote for %s: %s" % (tag, dec.get("err", {}).get("errors")), rep)
     elif dec["ok"] != texts:
         bad = [t for t, d in zip(texts, dec["ok"]) if t != d][0] if len(dec["ok"]) == len(texts) else texts[0]
-        ch = next((c for c in bad if c in AMBIGUOUS + UNENCODABLE), None)
+        ch = next((c for c in bad if c in AMBIGUOUS + UNENCODABLE), None) or (None if in_table else bad[1:2])
         if ch and not in_table:
             chk.report("silently-changed:U+%04X" % ord(ch), "text %s compiles without a diagnostic and reads back as %s" % (json.dumps(texts, ensure_ascii=False), json.dumps(dec["ok"], ensure_ascii=False)), rep)
         else:
@@ -242,13 +263,14 @@ ANM_ENTRY = """entry {
 """
 
 
-def cli_roundtrip(chk, wd, name, cmd, game, source, texts, what):
+def cli_roundtrip(chk, wd, name, cmd, game, source, texts, what, expect="roundtrip"):
     """compile + decompile one file; the multiset of string literals that come back must contain the texts"""
     src = os.path.join(wd, name + ".spec")
     out = os.path.join(wd, name + ".bin")
     with open(src, "w", encoding="utf-8") as f:
         f.write(source)
     rep = {"cmd": cmd, "game": game, "source": source, "texts": texts}
+    special = expect.split(":", 1)[1] if expect.startswith("either:") else None
     rc, so, se = cli([cmd, "compile", "-g", game, src, "-o", out], wd)
     chk.add("cli_files")
     if "panicked at" in se:
@@ -260,7 +282,7 @@ def cli_roundtrip(chk, wd, name, cmd, game, source, texts, what):
         return False
     rc, so, se2 = cli([cmd, "decompile", "-g", game, out], wd)
     if rc != 0 or "panicked at" in se2:
-        chk.report("cli-decompile-fails:%s" % cmd, "%s decompile -g %s fails on its own output for %s: %s" % (cmd, game, what, se2[:300]), rep)
+        chk.report(special or "cli-decompile-fails:%s" % cmd, "%s decompile -g %s fails on its own output for %s: %s" % (cmd, game, what, se2[:300]), rep)
         return None
     back = [unlit(m.group(1)) for m in LIT.finditer(so)]
     missing = [t for t in texts if t not in back]
@@ -271,7 +293,7 @@ def cli_roundtrip(chk, wd, name, cmd, game, source, texts, what):
     if not ok:
         bad = (missing or texts)[0]
         ch = next((c for c in bad if c in AMBIGUOUS + UNENCODABLE), None)
-        key = "silently-changed:U+%04X" % ord(ch) if ch else "cli-text-differs:%s:%s" % (cmd, game)
+        key = "silently-changed:U+%04X" % ord(ch) if ch else special or "cli-text-differs:%s:%s" % (cmd, game)
         chk.report(key, "%s -g %s (%s): text %s does not come back; decompiled literals: %s" % (cmd, game, what, json.dumps(bad, ensure_ascii=False), json.dumps(back[:6], ensure_ascii=False)), rep)
     elif se.strip() or se2.strip():
         chk.report("cli-warns:%s" % cmd, "%s -g %s warns on %s: %s" % (cmd, game, what, (se + se2)[:200]), rep)
@@ -279,52 +301,66 @@ def cli_roundtrip(chk, wd, name, cmd, game, source, texts, what):
     return True
 
 
-def cli_sweep(chk, wd, rep, thorough):
+def cli_jobs(rng, rep, thorough):
+    """[(name, cmd, game, source, texts, what, expect)]  expect: "roundtrip" | "either" | "reject" """
     chars = [a for a, _ in rep]
-    rng = chk.rng
     special = [a for a, b in rep if (len(b) == 2 and b[1] in (0x5c, 0x7c, 0x7e, 0x80, 0x81, 0x77)) or (len(b) == 1 and b[0] >= 0xa1)]
+    jobs = []
     per_file = 150
+
+    def clip(t, nbytes):
+        while len(t.encode("cp932")) > nbytes:
+            t = t[:-1]
+        return t
+
     for game, (tmpl, flags) in MSG_GAMES.items():
+        def msg(texts):
+            body = "\n".join("    " + tmpl % lit(t) for t in texts)
+            return "meta { table: { 0: {script: \"script0\"%s} } }\nscript script0 {\n%s\n}\n" % (flags, body)
         texts = []
         texts += [a + "A" + a for a in special[int(game) % 3::3]][:60]
-        texts += ["".join(chars[(n * 11 + j * 17 + int(game)) % len(chars)] for j in range(n)).replace("|", "!") for n in list(range(0, 40)) + [127, 128, 129, 255, 256, 300]]
+        texts += [clip("".join(chars[(n * 11 + j * 17 + int(game)) % len(chars)] for j in range(n)).replace("|", "!"), 200)
+                  for n in list(range(0, 40)) + [63, 64, 99, 100, 101, 120]]
         texts += ["|" + "".join(rng.choice(chars) for _ in range(rng.randrange(0, 9))) if rng.random() < 0.4 else
                   "".join(rng.choice(chars) for _ in range(rng.randrange(0, 30))) for _ in range(per_file - len(texts))]
         texts = [t if not t.startswith("|") or game in ("11", "12", "18") else "!" + t[1:] for t in texts]
-        body = "\n".join("    " + tmpl % lit(t) for t in texts)
-        source = "meta { table: { 0: {script: \"script0\"%s} } }\nscript script0 {\n%s\n}\n" % (flags, body)
-        cli_roundtrip(chk, wd, "msg" + game, "trumsg", game, source, texts, "%d strings" % len(texts))
-        # unencodable / ambiguous characters: one file each
+        jobs.append(("msg" + game, "trumsg", game, msg(texts), texts, "%d strings" % len(texts), "roundtrip"))
+        # a text whose instruction does not fit the format's size field: must come back or be rejected
+        big = "".join(chars[300 + k] for k in range(150))
+        jobs.append(("msg%s_big" % game, "trumsg", game, msg([big]), [big], "a 300-byte string", "either:msg-oversize:" + game))
         for ch in UNENCODABLE + AMBIGUOUS[:3]:
-            source = "meta { table: { 0: {script: \"script0\"%s} } }\nscript script0 {\n    %s\n}\n" % (flags, tmpl % lit("a" + ch + "b"))
-            r = cli_roundtrip(chk, wd, "msg%s_u%04x" % (game, ord(ch[0])), "trumsg", game, source, ["a" + ch + "b"], "U+%04X" % ord(ch[0]))
-            if r is True and ch in UNENCODABLE:
-                pass    # identical text came back: allowed by the contract
-    # STD names (128-byte buffers) and ANM entry paths
+            jobs.append(("msg%s_u%04x" % (game, ord(ch[0])), "trumsg", game, msg(["a" + ch + "b"]), ["a" + ch + "b"], "U+%04X" % ord(ch[0]), "either"))
     n_std = 12 if thorough else 5
     for game in ("06", "08"):
         for j in range(n_std):
             ts = []
             for k in range(9):
                 ln = rng.choice([0, 1, 5, 20, 40, 62, 63]) if k else [0, 1, 63, 126, 127][j % 5]
-                t = "".join(rng.choice(chars) for _ in range(ln))
-                while len(t.encode("cp932")) > 127:
-                    t = t[:-1]
+                t = clip("".join(rng.choice(chars) for _ in range(ln)), 127)
                 ts.append(t or " ")
-            cli_roundtrip(chk, wd, "std%s_%d" % (game, j), "trustd", game, STD06 % tuple(lit(t) for t in ts), list(dict.fromkeys(ts)), "meta strings")
-        too_long = "".join(chars[200 + k] for k in range(64))       # 128 bytes: one too many
-        r = cli_roundtrip(chk, wd, "std%s_long" % game, "trustd", game, STD06 % tuple([lit(too_long)] + [lit("x")] * 8), [too_long], "128-byte stage_name")
-        if r is True:
-            chk.report("oversize-accepted:std-name", "trustd -g %s accepts a 128-byte stage_name (buffer of 128 incl. NUL)" % game, {"text": too_long})
-        r = cli_roundtrip(chk, wd, "std%s_emoji" % game, "trustd", game, STD06 % tuple([lit("a\U0001f600")] + [lit("x")] * 8), ["a\U0001f600"], "emoji")
+            jobs.append(("std%s_%d" % (game, j), "trustd", game, STD06 % tuple(lit(t) for t in ts), list(dict.fromkeys(ts)), "meta strings", "roundtrip"))
+        too_long = "".join(chars[200 + k] for k in range(64))       # 128 bytes: one too many for a 128-byte buffer
+        jobs.append(("std%s_long" % game, "trustd", game, STD06 % tuple([lit(too_long)] + [lit("x")] * 8), [too_long], "128-byte stage_name", "either:std-oversize"))
+        jobs.append(("std%s_emoji" % game, "trustd", game, STD06 % tuple([lit("a\U0001f600")] + [lit("x")] * 8), ["a\U0001f600"], "emoji", "either"))
     for j in range(n_std):
         t = "".join(rng.choice(chars) for _ in range(rng.randrange(1, 50))) + ".anm"
-        cli_roundtrip(chk, wd, "std12_%d" % j, "trustd", "12", STD12 % lit(t), [t], "anm_path")
+        jobs.append(("std12_%d" % j, "trustd", "12", STD12 % lit(t), [t], "anm_path", "roundtrip"))
     for j in range(4 if thorough else 2):
-        ts = ["dir/" + "".join(rng.choice(chars) for _ in range(rng.randrange(1, 20))).replace("\\", "/") + ".png" for _ in range(12)]
+        ts = ["dir/" + "".join(rng.choice(chars) for _ in range(rng.randrange(1, 20))) + ".png" for _ in range(12)]
         ts += ["".join(special[(j * 12 + k) % len(special)] for k in range(n)) + ".png" for n in (1, 2, 5, 6, 7, 8, 13, 14, 15, 16)]
-        cli_roundtrip(chk, wd, "anm_%d" % j, "truanm", "12", "".join(ANM_ENTRY % lit(t) for t in ts), ts, "entry paths")
-    cli_roundtrip(chk, wd, "anm_emoji", "truanm", "12", ANM_ENTRY % lit("a⏄.png"), ["a⏄.png"], "unencodable path")
+        jobs.append(("anm_%d" % j, "truanm", "12", "".join(ANM_ENTRY % lit(t) for t in ts), ts, "entry paths", "roundtrip"))
+    jobs.append(("anm_emoji", "truanm", "12", ANM_ENTRY % lit("a⏄.png"), ["a⏄.png"], "unencodable path", "either"))
+    return jobs
+
+
+def cli_sweep(rec, wd, jobs):
+    for name, cmd, game, source, texts, what, expect in jobs:
+        r = cli_roundtrip(rec, wd, name, cmd, game, source, texts, what, expect)
+        if r is False:
+            rec.add("cli_rejected")
+            if expect == "roundtrip":
+                rec.report("cli-rejected:%s:%s" % (cmd, game), "%s -g %s rejects texts of the repertoire (%s)" % (cmd, game, what),
+                           {"cmd": cmd, "game": game, "source": source})
 
 
 # ------------------------------------------------------------------ driver
@@ -332,14 +368,31 @@ def run(chk, replay=None):
     wd = lib.workdir("c15")
     thorough = chk.tier == "thorough"
     extra = os.path.join(wd, "extra.ndjson")
-    # seed-chosen sequence cases on top of the fixed stride
+    deep = "_deep" if thorough else ""
+    walls = {}
+    # ---- all seed-dependent choices are made here, before anything runs concurrently
     SB = 4 * (8 if thorough else 5)
     nsingle, nseq = 65 * 176, SB * SB + SB * SB * SB
     ids = [] if thorough else sorted({nsingle + 1 + chk.rng.randrange(nseq) for _ in range(300)})
     lib.write_ndjson(extra, [{"id": i} for i in ids])
+    rep = repertoire()
+    sweep, by_bytes = sweep_cases(chk, rep, thorough)
+    for ch in AMBIGUOUS + UNENCODABLE:
+        for e in (ENCODINGS[0], ENCODINGS[3], ENCODINGS[8]):
+            sweep.append(({"id": len(sweep) + 1, "steps": [dict(e, text="a" + ch + "b")]}, "outside-table"))
+    # every other character of the Basic Multilingual Plane: must come back identical or be rejected
+    table = {a for a, _ in rep}
+    for cp in range(0x20, 0x10000):
+        if 0xd800 <= cp <= 0xdfff or chr(cp) in table or chr(cp) in AMBIGUOUS + UNENCODABLE:
+            continue
+        sweep.append(({"id": len(sweep) + 1, "steps": [dict(ENCODINGS[0], text="a" + chr(cp) + "b")]}, "outside-table"))
+    jobs = cli_jobs(chk.rng, rep, thorough)
     cases_path = os.path.join(wd, "cases.ndjson")
-    deep = "_deep" if thorough else ""
-    walls = {}
+    only_framing = None
+    if replay:
+        rc = json.load(open(replay))["case"].get("case", {})
+        if "exp" in rc:           # a framing case: replay just that one; anything else: run the whole check again
+            only_framing = rc
 
     def timed(name, f):
         t0 = time.time()
@@ -348,15 +401,89 @@ def run(chk, replay=None):
         return r
 
     def t_machine():
-        return lib.tlc("MC_StrFrame", cfg="MC_StrFrame%s.cfg" % deep, env=GC, workers=4, timeout=2400)
+        return lib.tlc("MC_StrFrame", cfg="MC_StrFrame%s.cfg" % deep, env=GC, workers=3, timeout=2400)
+
+    gen_env = dict(GC, OUT=cases_path, EXTRA=extra, SEQSTRIDE="1" if thorough else "9")
 
     def t_gen():
-        return lib.tlc("Gen_StrFrame", cfg="Gen_StrFrame%s.cfg" % deep,
-                       env=dict(GC, OUT=cases_path, EXTRA=extra, SEQSTRIDE="1" if thorough else "9"), workers=4, timeout=2400)
+        return lib.tlc("Gen_StrFrame", cfg="Gen_StrFrame%s.cfg" % deep, env=dict(gen_env, MODE="check", OUT=os.devnull),
+                       workers=3, timeout=2400, name="Gen_StrFrame_check")
 
-    with ThreadPoolExecutor(2) as ex:
+    def t_export():
+        return lib.tlc("Gen_StrFrame", cfg="Gen_StrFrame%s.cfg" % deep, env=dict(gen_env, MODE="export"),
+                       workers=1, timeout=2400, name="Gen_StrFrame_export")
+
+    # ---- repertoire sweep through the real Lowerer/Raiser; the blobs are judged by TLC (Obs_StrFrame)
+    def t_sweep():
+        rec = Rec()
+        sweep_path = os.path.join(wd, "sweep.ndjson")
+        lib.write_ndjson(sweep_path, [c for c, _ in sweep])
+        p = lib.vh(["c15", sweep_path])
+        sobs = {}
+        for line in p.stdout.split("\n"):
+            if not line.strip():
+                continue
+            o = json.loads(line); sobs[o["id"]] = o
+        rows = []
+        for c, cls in sweep:
+            o = sobs[c["id"]]
+            in_table = cls != "outside-table"
+            rec.add("sweep_strings", len(c["steps"]))
+            rec.add("sweep_" + cls)
+            r = judge_contract(rec, c, cls, o, in_table)
+            if r is None:
+                continue
+            if not in_table:
+                if r is False:
+                    rec.add("outside_table_rejected")
+                continue
+            steps = [dict(kind=s["kind"], n=s["n"], nulless=s["nulless"], mask=s["mask"], furibug=s["furibug"],
+                          payload=payload_of(s["text"], by_bytes)) for s in c["steps"]]
+            rows.append({"id": c["id"], "steps": steps, "ok": bool(r), "blobs": o["enc"].get("ok", [])})
+        shards = 3 if thorough else 2
+        parts = [rows[j::shards] for j in range(shards)]
+
+        def t_obs(j):
+            path = os.path.join(wd, "rows_%d.ndjson" % j)
+            lib.write_ndjson(path, parts[j])
+            return lib.tlc("Obs_StrFrame", env=dict(GC, ROWS=path), workers=1, timeout=2400, name="Obs_StrFrame_%d" % j)
+
+        with ThreadPoolExecutor(shards) as ex:
+            results = list(ex.map(t_obs, range(shards)))
+        for j, r in enumerate(results):
+            rec.ops.append(("tlc_stats", r))
+            rec.add("observations_judged_by_tlc", r.distinct)
+            if r.ok:
+                continue
+            m = None
+            for m in re.finditer(r"^(?:/\\ )?i = (\d+)", r.out, re.M):
+                pass
+            if not m:
+                raise lib.ToolError("cannot locate the violating row in TLC output\n" + r.out[-3000:])
+            row = parts[j][int(m.group(1)) - 1]
+            c, cls = sweep[row["id"] - 1]
+            texts = [s["text"] for s in c["steps"]]
+            kinds = "+".join(sorted({s["kind"] for s in c["steps"]}))
+            rec.report("obs-blob-differs:%s:%s" % (cls, kinds),
+                       "the blob the real compiler wrote for %s under %s is not what StrFrame specifies (ok=%s)" % (json.dumps(texts, ensure_ascii=False), sobs[c["id"]]["sigs"], row["ok"]),
+                       {"case": c, "row": row, "observed": sobs[c["id"]], "tlc": r.out[r.out.find("Error:"):][:3000]})
+        return rec
+
+    def t_cli():
+        rec = Rec()
+        cli_sweep(rec, wd, jobs)
+        return rec
+
+    with ThreadPoolExecutor(5) as ex:
         f1, f2 = ex.submit(timed, "machine", t_machine), ex.submit(timed, "gen", t_gen)
-        r1, r2 = f1.result(), f2.result()
+        f5 = ex.submit(timed, "export", t_export)
+        f3 = None if only_framing else ex.submit(timed, "sweep+obs", t_sweep)
+        f4 = None if only_framing else ex.submit(timed, "cli", t_cli)
+        r1, r2, r5 = f1.result(), f2.result(), f5.result()
+        rec3 = f3.result() if f3 else Rec()
+        rec4 = f4.result() if f4 else Rec()
+    if not r5.ok:
+        raise lib.ToolError("Gen_StrFrame export failed\n" + r5.out[-3000:])
     for r, what in ((r1, "MC_StrFrame"), (r2, "Gen_StrFrame")):
         if not r.ok:
             raise lib.ToolError("%s: the specification itself is inconsistent\n%s" % (what, r.out[-3000:]))
@@ -371,17 +498,15 @@ def run(chk, replay=None):
         sig = json.dumps([c["steps"], c["exp"]], sort_keys=True)
         if sig not in seen:
             seen.add(sig); cases.append(c)
-    only_framing = False
-    if replay:
-        rc = json.load(open(replay))["case"].get("case", {})
-        if "exp" in rc:           # a framing case: replay just that one; anything else: run the whole check again
-            only_framing = True
-            cases = [c for c in cases if c["steps"] == rc["steps"]]
+    if only_framing:
+        cases = [c for c in cases if c["steps"] == only_framing["steps"]]
     lib.write_ndjson(cases_path, cases)
     t0 = time.time()
     p = lib.vh(["c15", cases_path])
     obs = {}
-    for line in p.stdout.splitlines():
+    for line in p.stdout.split("\n"):
+        if not line.strip():
+            continue
         o = json.loads(line); obs[o["id"]] = o
     for c in cases:
         o = obs.get(c["id"])
@@ -395,75 +520,9 @@ def run(chk, replay=None):
                         "expected_blobs": [e["bytes"] if e["ok"] else "error" for e in c["exp"]],
                         "real": o["enc"].get("ok", o["enc"].get("err", {}).get("errors"))})
     walls["replay"] = round(time.time() - t0, 1)
-    if only_framing:
-        return
-
-    # ---- repertoire sweep through the real Lowerer/Raiser; blobs judged by TLC
-    rep = repertoire()
     chk.set("repertoire_chars", len(rep))
-    sweep, by_bytes = sweep_cases(chk, rep, thorough)
-    n0 = len(sweep)
-    for ch in AMBIGUOUS + UNENCODABLE:
-        for e in (ENCODINGS[0], ENCODINGS[3], ENCODINGS[8]):
-            sweep.append(({"id": len(sweep) + 1, "steps": [dict(e, text="a" + ch + "b")]}, "outside-table"))
-    sweep_path = os.path.join(wd, "sweep.ndjson")
-    lib.write_ndjson(sweep_path, [c for c, _ in sweep])
-    t0 = time.time()
-    p = lib.vh(["c15", sweep_path])
-    walls["sweep"] = round(time.time() - t0, 1)
-    sobs = {}
-    for line in p.stdout.splitlines():
-        o = json.loads(line); sobs[o["id"]] = o
-    rows = []
-    for c, cls in sweep:
-        o = sobs[c["id"]]
-        in_table = cls != "outside-table"
-        chk.add("sweep_strings", len(c["steps"]))
-        chk.add("sweep_" + cls)
-        r = judge_contract(chk, c, cls, o, in_table)
-        if r is None:
-            continue
-        if not in_table:
-            if r is False:
-                chk.add("outside_table_rejected")
-            continue
-        steps = [dict(kind=s["kind"], n=s["n"], nulless=s["nulless"], mask=s["mask"], furibug=s["furibug"],
-                      payload=payload_of(s["text"], by_bytes)) for s in c["steps"]]
-        rows.append({"id": c["id"], "steps": steps, "ok": bool(r), "blobs": o["enc"].get("ok", [])})
-    rows_path = os.path.join(wd, "rows.ndjson")
-    shards = 4
-    parts = [rows[j::shards] for j in range(shards)]
-
-    def t_obs(j):
-        path = os.path.join(wd, "rows_%d.ndjson" % j)
-        lib.write_ndjson(path, parts[j])
-        return lib.tlc("Obs_StrFrame", env=dict(GC, ROWS=path), workers=1, timeout=2400, name="Obs_StrFrame_%d" % j)
-
-    t0 = time.time()
-    with ThreadPoolExecutor(shards) as ex:
-        results = list(ex.map(t_obs, range(shards)))
-    walls["obs"] = round(time.time() - t0, 1)
-    for j, r in enumerate(results):
-        chk.tlc_stats(r)
-        chk.add("observations_judged_by_tlc", r.distinct)
-        if r.ok:
-            continue
-        m = None
-        for m in re.finditer(r"^(?:/\\ )?i = (\d+)", r.out, re.M):
-            pass
-        if not m:
-            raise lib.ToolError("cannot locate the violating row in TLC output\n" + r.out[-3000:])
-        row = parts[j][int(m.group(1)) - 1]
-        c, cls = sweep[row["id"] - 1]
-        texts = [s["text"] for s in c["steps"]]
-        kinds = "+".join(sorted({s["kind"] for s in c["steps"]}))
-        chk.report("obs-blob-differs:%s:%s" % (cls, kinds),
-                   "the blob the real compiler wrote for %s under %s is not what StrFrame specifies (ok=%s)" % (json.dumps(texts, ensure_ascii=False), sobs[c["id"]]["sigs"], row["ok"]),
-                   {"case": c, "row": row, "observed": sobs[c["id"]], "tlc": r.out[r.out.find("Error:"):][:3000]})
-    # ---- real CLI
-    t0 = time.time()
-    cli_sweep(chk, wd, rep, thorough)
-    walls["cli"] = round(time.time() - t0, 1)
+    rec3.apply(chk)
+    rec4.apply(chk)
     chk.set("wall_s_by_part", walls)
     chk.set("exhaustive", False)
     chk.set("rule", "in-model: every sequence of <=3 strings over 4 encodings x %d texts (MC_StrFrame) and one state per (encoding, text) "
